@@ -1,3 +1,414 @@
-//! C05 (stub: no cases yet)
+//! C05 — prefix/suffix tests, stripping, pattern trimming and ASCII-whitespace trimming
+//! (string::{starts_with,ends_with,strip_prefix,strip_suffix,trim*}, slice::bytes_*) vs std.
 use crate::common::*;
-pub fn run(_cfg: &Cfg, _out: &mut Out) {}
+use konst::{slice as ks, string as kstr};
+
+// ---------------------------------------------------------------- oracles for raw bytes
+
+/// naive reference: remove whole repetitions of `n` while there is one at the start
+fn ref_trim_start<'a>(mut h: &'a [u8], n: &[u8]) -> &'a [u8] {
+    if n.is_empty() {
+        return h;
+    }
+    while h.len() >= n.len() && &h[..n.len()] == n {
+        h = &h[n.len()..];
+    }
+    h
+}
+fn ref_trim_end<'a>(mut h: &'a [u8], n: &[u8]) -> &'a [u8] {
+    if n.is_empty() {
+        return h;
+    }
+    while h.len() >= n.len() && &h[h.len() - n.len()..] == n {
+        h = &h[..h.len() - n.len()];
+    }
+    h
+}
+
+/// std's slice methods for the tests and strips, the naive reference for the trims
+fn oracle_bytes(h: &[u8], n: &[u8]) -> String {
+    fields(&[
+        ("sw", show_bool(h.starts_with(n)).into()),
+        ("ew", show_bool(h.ends_with(n)).into()),
+        ("sp", show_opt(h.strip_prefix(n), |s| view_of(h, s))),
+        ("ss", show_opt(h.strip_suffix(n), |s| view_of(h, s))),
+        ("ts", view_of(h, ref_trim_start(h, n))),
+        ("te", view_of(h, ref_trim_end(h, n))),
+        ("tm", view_of(h, ref_trim_end(ref_trim_start(h, n), n))),
+    ])
+}
+
+// ---------------------------------------------------------------- implementation columns
+
+macro_rules! impl_bytes_all {
+    ($h:expr, $p:expr) => {{
+        let h: &[u8] = $h;
+        fields(&[
+            ("sw", show_bool(ks::bytes_start_with(h, $p)).into()),
+            ("ew", show_bool(ks::bytes_end_with(h, $p)).into()),
+            ("sp", show_opt(ks::bytes_strip_prefix(h, $p), |s| view_of(h, s))),
+            ("ss", show_opt(ks::bytes_strip_suffix(h, $p), |s| view_of(h, s))),
+            ("ts", view_of(h, ks::bytes_trim_start_matches(h, $p))),
+            ("te", view_of(h, ks::bytes_trim_end_matches(h, $p))),
+            ("tm", view_of(h, ks::bytes_trim_matches(h, $p))),
+        ])
+    }};
+}
+
+macro_rules! impl_str_all {
+    ($h:expr, $p:expr) => {{
+        let h: &str = $h;
+        fields(&[
+            ("sw", show_bool(kstr::starts_with(h, $p)).into()),
+            ("ew", show_bool(kstr::ends_with(h, $p)).into()),
+            ("sp", show_opt(kstr::strip_prefix(h, $p), |s| view_str(h, s))),
+            ("ss", show_opt(kstr::strip_suffix(h, $p), |s| view_str(h, s))),
+            ("ts", view_str(h, kstr::trim_start_matches(h, $p))),
+            ("te", view_str(h, kstr::trim_end_matches(h, $p))),
+            ("tm", view_str(h, kstr::trim_matches(h, $p))),
+        ])
+    }};
+}
+
+// ---------------------------------------------------------------- non-triviality classes
+
+fn has_border(n: &[u8]) -> bool {
+    (1..n.len()).any(|k| n[..k] == n[n.len() - k..])
+}
+/// longest proper non-empty prefix of `n` that `r` starts with (0 if none)
+fn partial_prefix(r: &[u8], n: &[u8]) -> usize {
+    (1..n.len()).rev().find(|&k| r.len() >= k && r[..k] == n[..k]).unwrap_or(0)
+}
+fn partial_suffix(r: &[u8], n: &[u8]) -> usize {
+    (1..n.len()).rev().find(|&k| r.len() >= k && r[r.len() - k..] == n[n.len() - k..]).unwrap_or(0)
+}
+fn tag(h: &[u8], n: &[u8]) -> String {
+    if n.is_empty() {
+        return "emptypat".into();
+    }
+    let mut t: Vec<String> = Vec::new();
+    if n.len() > h.len() {
+        t.push("long".into());
+    }
+    let s = ref_trim_start(h, n);
+    let e = ref_trim_end(h, n);
+    let ks_ = (h.len() - s.len()) / n.len();
+    let ke = (h.len() - e.len()) / n.len();
+    if ks_ > 0 {
+        t.push(format!("s{}", ks_.min(3)));
+    }
+    if ke > 0 {
+        t.push(format!("e{}", ke.min(3)));
+    }
+    if partial_prefix(s, n) > 0 {
+        t.push(if s.len() < n.len() { "sp_short".into() } else { "sp".into() });
+    }
+    if partial_suffix(e, n) > 0 {
+        t.push(if e.len() < n.len() { "ep_short".into() } else { "ep".into() });
+    }
+    if ks_ > 0 && ke > 0 && s.len() + e.len() < h.len() + n.len() && !s.is_empty() && !e.is_empty() {
+        // the start run and the end run overlap or touch
+        t.push("meet".into());
+    }
+    if has_border(n) {
+        t.push("border".into());
+    }
+    if t.is_empty() { "-".into() } else { t.join("+") }
+}
+
+// ---------------------------------------------------------------- one case per pattern kind
+
+fn one_str(out: &mut Out, h: &str, n: &str) {
+    let args = format!("{} {}", hex(h.as_bytes()), hex(n.as_bytes()));
+    let imp = catch(|| impl_str_all!(h, n));
+    // the real std methods (&str patterns are not double-ended: trim_matches = both in turn)
+    let st = fields(&[
+        ("sw", show_bool(h.starts_with(n)).into()),
+        ("ew", show_bool(h.ends_with(n)).into()),
+        ("sp", show_opt(h.strip_prefix(n), |s| view_str(h, s))),
+        ("ss", show_opt(h.strip_suffix(n), |s| view_str(h, s))),
+        ("ts", view_str(h, h.trim_start_matches(n))),
+        ("te", view_str(h, h.trim_end_matches(n))),
+        ("tm", view_str(h, h.trim_start_matches(n).trim_end_matches(n))),
+    ]);
+    out.line("c05.str", &args, &imp, &st, &tag(h.as_bytes(), n.as_bytes()));
+}
+fn one_strchar(out: &mut Out, h: &str, c: char) {
+    let args = format!("{} {}", hex(h.as_bytes()), c as u32);
+    let imp = catch(|| impl_str_all!(h, c));
+    let st = fields(&[
+        ("sw", show_bool(h.starts_with(c)).into()),
+        ("ew", show_bool(h.ends_with(c)).into()),
+        ("sp", show_opt(h.strip_prefix(c), |s| view_str(h, s))),
+        ("ss", show_opt(h.strip_suffix(c), |s| view_str(h, s))),
+        ("ts", view_str(h, h.trim_start_matches(c))),
+        ("te", view_str(h, h.trim_end_matches(c))),
+        ("tm", view_str(h, h.trim_matches(c))),
+    ]);
+    let mut buf = [0u8; 4];
+    let n = c.encode_utf8(&mut buf).as_bytes();
+    out.line("c05.strchar", &args, &imp, &st, &tag(h.as_bytes(), n));
+}
+fn one_bytes(out: &mut Out, h: &[u8], n: &[u8]) {
+    let args = format!("{} {}", hex(h), hex(n));
+    let st = oracle_bytes(h, n);
+    let tg = tag(h, n);
+    let imp = catch(|| impl_bytes_all!(h, n));
+    out.line("c05.bytes", &args, &imp, &st, &tg);
+    // the same needle as a byte array and (when valid UTF-8) as a &str pattern
+    let imp_arr = catch(|| match n.len() {
+        0 => impl_bytes_all!(h, &[0u8; 0]),
+        1 => impl_bytes_all!(h, <&[u8; 1]>::try_from(n).unwrap()),
+        2 => impl_bytes_all!(h, <&[u8; 2]>::try_from(n).unwrap()),
+        3 => impl_bytes_all!(h, <&[u8; 3]>::try_from(n).unwrap()),
+        4 => impl_bytes_all!(h, <&[u8; 4]>::try_from(n).unwrap()),
+        5 => impl_bytes_all!(h, <&[u8; 5]>::try_from(n).unwrap()),
+        6 => impl_bytes_all!(h, <&[u8; 6]>::try_from(n).unwrap()),
+        _ => impl_bytes_all!(h, n),
+    });
+    out.line("c05.bytes", &args, &imp_arr, &st, &tg);
+    if let Ok(s) = std::str::from_utf8(n) {
+        let imp_s = catch(|| impl_bytes_all!(h, s));
+        out.line("c05.bytes", &args, &imp_s, &st, &tg);
+    }
+}
+fn one_byteschar(out: &mut Out, h: &[u8], c: char) {
+    let args = format!("{} {}", hex(h), c as u32);
+    let mut buf = [0u8; 4];
+    let n = c.encode_utf8(&mut buf).as_bytes().to_vec();
+    let imp = catch(|| impl_bytes_all!(h, &c));
+    out.line("c05.byteschar", &args, &imp, &oracle_bytes(h, &n), &tag(h, &n));
+}
+
+// ---------------------------------------------------------------- whitespace
+
+fn ws_tag(s: &[u8]) -> String {
+    let a = s.len() - s.trim_ascii_start().len();
+    let b = s.len() - s.trim_ascii_end().len();
+    let mut t: Vec<String> = Vec::new();
+    if a > 0 {
+        t.push(format!("lead{}", a.min(2)));
+    }
+    if b > 0 {
+        t.push(format!("trail{}", b.min(2)));
+    }
+    if a == s.len() && a > 0 {
+        t.push("allws".into());
+    }
+    // a byte that std's str::trim would remove but trim_ascii keeps, at an end
+    let odd = |x: u8| matches!(x, 0x0B | 0x1C..=0x1F | 0x85 | 0xA0);
+    if s.first().map_or(false, |x| odd(*x)) || s.last().map_or(false, |x| odd(*x)) {
+        t.push("nearws".into());
+    }
+    if t.is_empty() { "-".into() } else { t.join("+") }
+}
+fn one_ws(out: &mut Out, s: &[u8]) {
+    let imp = catch(|| {
+        fields(&[
+            ("t", view_of(s, ks::bytes_trim(s))),
+            ("ts", view_of(s, ks::bytes_trim_start(s))),
+            ("te", view_of(s, ks::bytes_trim_end(s))),
+        ])
+    });
+    let st = fields(&[
+        ("t", view_of(s, s.trim_ascii())),
+        ("ts", view_of(s, s.trim_ascii_start())),
+        ("te", view_of(s, s.trim_ascii_end())),
+    ]);
+    out.line("c05.ws", &hex(s), &imp, &st, &ws_tag(s));
+}
+fn one_wsstr(out: &mut Out, s: &str) {
+    let imp = catch(|| {
+        fields(&[
+            ("t", view_str(s, kstr::trim(s))),
+            ("ts", view_str(s, kstr::trim_start(s))),
+            ("te", view_str(s, kstr::trim_end(s))),
+        ])
+    });
+    // konst documents string::trim* as ASCII-whitespace trimming: the oracle is trim_ascii*
+    let st = fields(&[
+        ("t", view_str(s, s.trim_ascii())),
+        ("ts", view_str(s, s.trim_ascii_start())),
+        ("te", view_str(s, s.trim_ascii_end())),
+    ]);
+    out.line("c05.wsstr", &hex(s.as_bytes()), &imp, &st, &ws_tag(s.as_bytes()));
+}
+
+pub fn run(cfg: &Cfg, out: &mut Out) {
+    // ------------------------------------------------------------ regression corpus first
+    // F2: form feed is ASCII whitespace
+    for s in [&b"\x0Cab\x0C"[..], b"\x0C", b" \x0C\t", b"\x0B a \x0B", b"\n\x0C\r x \x0C"] {
+        one_ws(out, s);
+        one_wsstr(out, std::str::from_utf8(s).unwrap());
+    }
+    // partial trailing repetition / rollback, needle longer than the remainder, self-overlap
+    for (h, n) in [
+        ("ababa", "ab"), ("abababx", "abab"), ("aaaa", "aa"), ("aaaaa", "aa"), ("abab", "aba"), ("ab", "abc"),
+        ("#####huh###", "##"), ("oowowooooo", "oo"), ("éééaé", "é"), ("ééé", "éé"), ("", "a"), ("a", ""), ("", ""),
+    ] {
+        one_str(out, h, n);
+        one_bytes(out, h.as_bytes(), n.as_bytes());
+    }
+
+    // ------------------------------------------------------------ pattern functions
+    // every (haystack, needle) over a 4-letter alphabet with a 2-byte letter: empty,
+    // longer-than-input and self-overlapping needles included
+    let alpha = ['a', 'b', 'é', '-'];
+    let hays = all_strings(&alpha, if cfg.thorough { 5 } else { 4 });
+    let needles = all_strings(&alpha, 3);
+    for h in &hays {
+        for n in &needles {
+            one_str(out, h, n);
+        }
+    }
+    // char patterns of every UTF-8 length, on str and on bytes
+    let chars = ['a', 'b', 'é', '-', '锈', '🧠', '\u{0}', '\u{7f}', '\u{80}', '\u{7ff}', '\u{800}', '\u{ffff}', '\u{10000}', '\u{10ffff}'];
+    let hays_c = all_strings(&['a', 'é', '锈', '🧠'], if cfg.thorough { 5 } else { 4 });
+    for h in &hays_c {
+        for c in chars {
+            one_strchar(out, h, c);
+            one_byteschar(out, h.as_bytes(), c);
+        }
+    }
+    // raw bytes (not UTF-8): the two halves of 'é' as independent letters, and 0xFF;
+    // &[u8], &[u8; N] and (when valid) &str patterns
+    let balpha = [b'a', b'b', 0xC3u8, 0xA9u8, 0xFF];
+    let bhays = all_seqs(&balpha, if cfg.thorough { 5 } else { 4 });
+    let bneedles = all_seqs(&balpha, if cfg.thorough { 3 } else { 2 });
+    for h in &bhays {
+        for n in &bneedles {
+            one_bytes(out, h, n);
+        }
+    }
+    // deep repetition structure over a binary alphabet: several whole repetitions followed
+    // by a partial one at either end, needles with borders
+    let h2 = all_strings(&['a', 'b'], if cfg.thorough { 11 } else { 9 });
+    let n2 = all_strings(&['a', 'b'], if cfg.thorough { 5 } else { 4 });
+    for h in &h2 {
+        if h.len() < 5 {
+            continue;
+        }
+        for n in &n2 {
+            if n.is_empty() {
+                continue;
+            }
+            // keep the pairs in which something is trimmed or nearly trimmed
+            let (hb, nb) = (h.as_bytes(), n.as_bytes());
+            let interesting = hb[0] == nb[0] || hb[hb.len() - 1] == nb[nb.len() - 1];
+            if interesting {
+                one_str(out, h, n);
+                if n.len() >= 3 {
+                    one_bytes(out, hb, nb);
+                }
+            }
+        }
+    }
+    // the same over bytes for long needles ([u8; 5], [u8; 6])
+    if cfg.thorough {
+        let n3 = all_seqs(&[b'a', b'b'], 6);
+        let h3 = all_seqs(&[b'a', b'b'], 8);
+        for h in &h3 {
+            for n in &n3 {
+                if n.len() >= 5 {
+                    one_bytes(out, h, n);
+                }
+            }
+        }
+    }
+
+    // ------------------------------------------------------------ whitespace
+    // every byte value at both ends of a one-byte core
+    for b in 0..=255u8 {
+        for b2 in 0..=255u8 {
+            one_ws(out, &[b, b'x', b2]);
+        }
+    }
+    // every single byte, every pair in which one byte is in the neighbourhood of the
+    // whitespace set (thorough: every pair)
+    let near: [u8; 16] = [0x00, 0x08, 0x09, 0x0A, 0x0B, 0x0C, 0x0D, 0x0E, 0x1C, 0x1F, 0x20, 0x21, b'x', 0x85, 0xA0, 0xFF];
+    for b in 0..=255u8 {
+        one_ws(out, &[b]);
+        for b2 in 0..=255u8 {
+            if cfg.thorough || near.contains(&b) || near.contains(&b2) {
+                one_ws(out, &[b, b2]);
+            }
+        }
+        // a whitespace byte outside, the probed byte inside (the loop must go on / stop)
+        for w in [b' ', b'\t', b'\n', 0x0C, b'\r'] {
+            one_ws(out, &[w, b, b'x', b, w]);
+            one_ws(out, &[b, w, b'x', w, b]);
+        }
+    }
+    // all short strings over the whitespace neighbourhood
+    let wsalpha: [u8; 11] = [0x09, 0x0A, 0x0B, 0x0C, 0x0D, 0x20, 0x1F, 0x00, b'x', 0xC2, 0xA0];
+    for s in all_seqs(&wsalpha, if cfg.thorough { 5 } else { 4 }) {
+        one_ws(out, &s);
+    }
+    // &str: Unicode whitespace that is NOT ASCII whitespace must stay
+    let wschars = ['\t', '\n', '\u{0B}', '\u{0C}', '\r', ' ', 'x', '\u{1F}', '\u{85}', '\u{A0}', '\u{2003}', '\u{3000}'];
+    for s in all_strings(&wschars, if cfg.thorough { 4 } else { 3 }) {
+        one_wsstr(out, &s);
+    }
+    for c in 0..=0x7Fu8 {
+        let c = c as char;
+        one_wsstr(out, &format!("{}", c));
+        one_wsstr(out, &format!("{}é{}", c, c));
+        one_wsstr(out, &format!(" {}x{}\t", c, c));
+    }
+
+    // ------------------------------------------------------------ seeded random
+    let mut rng = Rng::new(cfg.seed ^ 0xC05);
+    let count = if cfg.thorough { 20000 } else { 3000 };
+    for _ in 0..count {
+        // pattern trimming: k1 repetitions, a partial one, filler, a partial one, k2 repetitions
+        let nl = 1 + rng.below(5) as usize;
+        let nchars: Vec<char> = (0..nl).map(|_| *rng.pick(&alpha)).collect();
+        let n: String = nchars.iter().collect();
+        let mut h = String::new();
+        for _ in 0..rng.below(4) {
+            h.push_str(&n);
+        }
+        if rng.below(2) == 0 {
+            let k = rng.below(nl as u64 + 1) as usize;
+            h.extend(nchars[..k].iter());
+        }
+        for _ in 0..rng.below(6) {
+            match rng.below(3) {
+                0 => h.push(*rng.pick(&alpha)),
+                1 => h.push_str(&n),
+                _ => {
+                    let k = rng.below(nl as u64 + 1) as usize;
+                    h.extend(nchars[k..].iter());
+                }
+            }
+        }
+        if rng.below(2) == 0 {
+            let k = rng.below(nl as u64 + 1) as usize;
+            h.extend(nchars[k..].iter());
+        }
+        for _ in 0..rng.below(4) {
+            h.push_str(&n);
+        }
+        one_str(out, &h, &n);
+        one_bytes(out, h.as_bytes(), n.as_bytes());
+        if nl == 1 {
+            one_strchar(out, &h, nchars[0]);
+            one_byteschar(out, h.as_bytes(), nchars[0]);
+        }
+        // whitespace: runs of near-whitespace bytes around a core
+        let mut s: Vec<u8> = Vec::new();
+        for _ in 0..rng.below(5) {
+            s.push(*rng.pick(&wsalpha));
+        }
+        for _ in 0..rng.below(4) {
+            s.push(rng.below(256) as u8);
+        }
+        for _ in 0..rng.below(5) {
+            s.push(*rng.pick(&wsalpha));
+        }
+        one_ws(out, &s);
+        if let Ok(st) = std::str::from_utf8(&s) {
+            one_wsstr(out, st);
+        }
+    }
+}
